@@ -310,9 +310,17 @@ fn run_case(c: &Case, acc: &mut Acc, trace: bool) {
     let base = alloc::reset();
     // measured without the runtime's per-step records (decision list, trace), which grow with
     // the length of the execution and belong to the machinery, not to tiny-http
-    let rc = RunCfg { lean: true, ..RunCfg::default() };
+    // the families with tens of thousands of messages need more steps than the engine's default
+    // cap (which would end the run early, as a livelock): about 100 per message
+    let step_cap = RunCfg::default().step_cap.max(2_000_000 + 8 * received as u64);
+    let rc = RunCfg { lean: true, step_cap, ..RunCfg::default() };
     let (obs, res) = run_scenario(&c.sc, &rc);
     let (peak, largest) = alloc::measure(base);
+    if res.end == tiny_http::verif_rt::core::End::StepCap {
+        // termination is not judged here, but a run cut short covers less than the rule says
+        acc.capped = true;
+        acc.notes.insert(format!("class {}: an execution was ended by the step cap of {} steps", c.class, step_cap));
+    }
     let traced = if trace { Some(run_scenario(&c.sc, &RunCfg { trace: true, ..RunCfg::default() }).1) } else { None };
     acc.evals += 1;
     acc.nontrivial += 1;
